@@ -175,6 +175,11 @@ func (s *scanner) Next() (*hrpc.Result, error) {
 
 	select {
 	case <-s.rpc.Context().Done():
+		if s.closed {
+			// the error (or the end of the scan) has been reported
+			// already, from now on there are no more results
+			return nil, io.EOF
+		}
 		s.Close()
 		return nil, s.rpc.Context().Err()
 	default:
